@@ -166,6 +166,8 @@ class Ctx:
         if k not in self._regions:
             if policy == "private":
                 pol = private_only_policy(self.fx)
+            elif policy == "all-local":
+                pol = lambda fn: fn["kind"] in ("Fn", "AssocFn")        # every local function, public ones and trait impls included
             elif isinstance(policy, tuple) and policy[0] == "private-except":
                 base, excl = private_only_policy(self.fx), policy[1]
                 pol = lambda fn: base(fn) and fn["path"] not in excl
